@@ -238,3 +238,96 @@ impl Scenario for Auth {
         }
     }
 }
+
+// =============================================================================================
+// wiring order: the two token addresses are write-once, whatever the order of the owner's UpdateConfig messages
+
+#[derive(Clone)]
+pub struct Wiring;
+
+fn cfg_msg(fields: &[(&str, &str)]) -> Value {
+    let mut m = serde_json::Map::new();
+    for k in ["rewards_dispatcher_contract", "validators_registry_contract", "bsei_token_contract", "stsei_token_contract", "airdrop_registry_contract", "rewards_contract", "update_reward_index_addr"] {
+        m.insert(k.to_string(), Value::Null);
+    }
+    for (k, v) in fields {
+        m.insert(k.to_string(), json!(v));
+    }
+    json!({ "update_config": m })
+}
+
+impl Scenario for Wiring {
+    type G = ();
+    type O = Value;
+    fn name(&self) -> String {
+        "auth/hub-wiring-order".into()
+    }
+    fn seeds(&self) -> Vec<(String, Chain, ())> {
+        // a hub straight after instantiate: nothing registered yet
+        let mut c = deploy(&Cfg::default());
+        c.instantiate(
+            Kind::Hub,
+            "hub2",
+            OWNER,
+            &json!({"epoch_period":10,"underlying_coin_denom":USEI,"unbonding_period":30,"peg_recovery_fee":"0","er_threshold":"1","reward_denom":KUSD,"update_reward_index_addr":UPDATER}),
+        )
+        .unwrap();
+        let (k, st) = c.contracts.remove("hub2").unwrap();
+        c.contracts.insert(HUB.into(), (k, st));
+        vec![("fresh hub, nothing registered".into(), c, ())]
+    }
+    fn feed_ghost(&self, _g: &(), _h: &mut Sha256) {}
+    fn observe(&self, c: &Chain) -> Value {
+        c.query_value(HUB, &json!({"config":{}})).expect("hub config")
+    }
+    fn actions(&self, _c: &Chain, _o: &Value, _g: &()) -> Vec<Action> {
+        let mut v = vec![];
+        let singles: Vec<(&str, &str)> = vec![
+            ("bsei_token_contract", BSEI),
+            ("bsei_token_contract", "bsei2"),
+            ("stsei_token_contract", STSEI),
+            ("stsei_token_contract", "stsei2"),
+            ("rewards_dispatcher_contract", DISP),
+            ("validators_registry_contract", REG),
+        ];
+        for (k, x) in &singles {
+            v.push(exec(format!("hub.update_config({}={})", k, x), OWNER, HUB, cfg_msg(&[(k, x)]), &[]));
+        }
+        v.push(exec("hub.update_config(bsei+stsei)".into(), OWNER, HUB, cfg_msg(&[("bsei_token_contract", BSEI), ("stsei_token_contract", STSEI)]), &[]));
+        v.push(exec("hub.update_config(bsei2+stsei2)".into(), OWNER, HUB, cfg_msg(&[("bsei_token_contract", "bsei2"), ("stsei_token_contract", "stsei2")]), &[]));
+        v.push(exec("hub.update_config(bsei by eve)".into(), EVE, HUB, cfg_msg(&[("bsei_token_contract", "bsei2")]), &[]));
+        v
+    }
+    fn step(&self, pre: &Chain, po: &Value, _g: &(), a: &Action, out: &Outcome, post: &Chain, qo: &Value, cx: &mut Cx) {
+        let (sender, _, msg) = a.exec_parts().unwrap();
+        let body = &msg["update_config"];
+        cx.validated();
+        let mut must_fail = sender != OWNER;
+        for f in ["bsei_token_contract", "stsei_token_contract"] {
+            if !body[f].is_null() && !po[f].is_null() {
+                must_fail = true;
+            }
+        }
+        if must_fail {
+            cx.trigger("c10_wiring_rejections_expected");
+            if out.ok() || pre.fingerprint() != post.fingerprint() {
+                cx.viol("C10.token_address_immutable", "a registered token address was changed (or a non-owner configured the hub)", format!("{}: config before {} after {}", a.label, po, qo));
+            }
+        } else {
+            cx.trigger("c10_wiring_accepts_expected");
+            if !out.ok() {
+                cx.viol("C10.designated_principal", "the owner could not register a token address / sibling that was not set yet", format!("{}: {}", a.label, out.err()));
+                return;
+            }
+            for f in ["bsei_token_contract", "stsei_token_contract", "validators_registry_contract"] {
+                if !body[f].is_null() && qo[f] != body[f] {
+                    cx.viol("C10.token_address_immutable", "an accepted registration did not store the sent address", format!("{}: {} stored {}", a.label, f, qo[f]));
+                }
+                if body[f].is_null() && qo[f] != po[f] {
+                    cx.viol("C10.token_address_immutable", "an omitted address changed", format!("{}: {} {} -> {}", a.label, f, po[f], qo[f]));
+                }
+            }
+        }
+    }
+    fn state(&self, _c: &Chain, _o: &Value, _g: &(), _cx: &mut Cx) {}
+}
